@@ -11,8 +11,9 @@
 //!   * a base64 spelling variant (padding, standard alphabet, non-zero trailing bits, whitespace)
 //!     of a token that would be accepted,
 //!   * malformed *optional* header parameters (non-string typ / kid / unknown parameters),
-//!   * claims that are not part of the version's documented structure and are ill-typed
-//!     (v0: aud / nbf of a wrong JSON type, aud = []), v1 `aud` given as an array containing "snap",
+//!   * registered claims that are not part of the version's documented structure and are ill-typed
+//!     (v0: aud / nbf / iss / iat of a wrong JSON type, aud = []; both: sub not a string), v1 `aud`
+//!     given as an array containing "snap",
 //!   * v0 pssid spelled as a non-hyphenated UUID form,
 //!   * a time closer than the guard to `now ± leeway` (the verifier reads the wall clock itself),
 //!   * Ed25519 signatures on which RFC 8032 cofactorless verification and dalek's strict
@@ -325,6 +326,17 @@ fn eval_decoded(
             if !ok {
                 why.push(Why::Claims);
             }
+        }
+    }
+    // ---- registered claims (RFC 7519 §4.1) that are not part of the version's structure but are
+    // ill-typed: not a well-formed JWT claims set, statement silent on whether that matters
+    if matches!(c.get("sub"), Some(v) if !v.is_string()) {
+        either = Some("illtyped-registered-claim-outside-structure");
+    }
+    if !v1 {
+        let str_or_strs = |v: &Value| v.is_string() || matches!(v, Value::Array(a) if a.iter().all(|x| x.is_string()));
+        if matches!(c.get("iss"), Some(v) if !str_or_strs(v)) || matches!(c.get("iat"), Some(v) if !v.is_number()) {
+            either = Some("illtyped-registered-claim-outside-structure");
         }
     }
     // ---- audience: "names the SNAP audience whenever it names an audience"
